@@ -20,8 +20,17 @@
 //!   - `at_offset(o)` on the root cursor must give the token's own value (the key string
 //!     for a key, the anchored value for an alias).
 //! * `cli-sample`: the same statement through `succinctly yq-locate --offset N FILE`,
-//!   `succinctly yq -s -o json EXPR FILE` and `succinctly yq -o json 'at_offset(N)' FILE`
-//!   on a small sample (spawns are expensive).
+//!   `succinctly yq -s -o json --from-file EXPRFILE FILE` (the printed expression byte for
+//!   byte: a key may contain NUL, which no argv can carry) and
+//!   `succinctly yq -o json 'at_offset(N)' FILE` (one output per document, each the token's
+//!   own value) on a small sample; spawns are bounded by a counter (cases x 3 + 240) so
+//!   that shrinking a failure cannot run for minutes; a child that cannot be run to
+//!   completion discards the case.
+//!
+//! Not asserted (measured with `VH_C29_MEASURE_RANGE=1`): `LocateResult::byte_range` equals
+//! the token span only for single-line tokens (multi-line plain and block scalars report
+//! their first line), `value_type` is "string" for every plain scalar — the statement
+//! promises neither.
 //!
 //! Values are compared with the model (`c14::json_matches`: ints exact, strings exact,
 //! mapping entries in order).
@@ -709,7 +718,7 @@ pub fn run(cx: &mut Ctx) {
     cx.check(
         "locate-eval",
         RULE,
-        Budget { quick: 30_000, thorough: 1_000_000, max_len: 3000 },
+        Budget { quick: 30_000, thorough: 600_000, max_len: 3000 },
         |u, st| {
             let (stream, r) = gen_case(u, &o);
             classify_stream(&stream, &r, st);
